@@ -4,10 +4,28 @@ from .. import core, sigreplay
 PROP = "C10"
 
 
+def static_rows(rep):
+    cases = sigreplay.delivery_cases()
+    verdicts, d, g = core.validate_traces("Trace_C11", cases)
+    rep.states += d
+    rep.transitions += max(d, g)
+    rep.extra["static_rows"] = {c["id"]: (verdicts[c["id"]]["why"] or "ok") for c in cases}
+    for c in cases:
+        v = verdicts[c["id"]]
+        if not core.tla_bool(v["ok"]):
+            rep.violations.append(core.Violation(PROP, v["why"], f"C10:static:{v['why']}", {"kind": "static", "case": c["id"]}, {"rows": c["rows"]}))
+
+
 def run(tier, seed):
-    return sigreplay.check(PROP, tier, seed)
+    rep = sigreplay.check(PROP, tier, seed)
+    static_rows(rep)
+    return rep
 
 
 def replay(scenario):
+    if scenario.get("kind") == "static":
+        rep = core.Report(PROP, "quick", 1)
+        static_rows(rep)
+        return rep.violations[:1]
     rep = sigreplay.check(PROP, "quick", scenario.get("seed", 1))
     return rep.violations[:1]
